@@ -615,6 +615,13 @@ func (e *Env) decodeCallAllowed(t *ir.Term, l *facts.Level) bool {
 			if l.Lower != nil && fn == l.Lower.DecodeOne {
 				return true
 			}
+			// a parameterless predicate of a metric type on a parsed value (v.IsValid()): it sees no part of the
+			// token; what its answer decides is judged with the conditions of the path (arm-value, reject-path)
+			if rv := sig.Recv(); rv != nil && sig.Params().Len() == 0 && sig.Results().Len() == 1 && e.F.EnumOf(rv.Type()) != nil {
+				if bt, ok := sig.Results().At(0).Type().Underlying().(*types.Basic); ok && bt.Kind() == types.Bool {
+					return true
+				}
+			}
 		}
 	}
 	return false
@@ -663,15 +670,28 @@ var _ = spec.V3
 // whole domain of the type - every declared constant, the numbers next to them, any other number -, exactly
 // "x != zero constant" (IsValid of the v2 types) or "x == zero constant" is read as that comparison in the
 // conditions of the paths: `v.IsValid()` after `v = GetX(code)` is the test `v != XInvalid` the rules look for.
+// Where the argument is the result of a parser of the library (func(string) T), which yields a declared constant or
+// the zero constant, agreement on the declared constants is enough (a v3 IsValid that looks the value up in its
+// table is false for numbers outside the enumeration, which no parser returns).
 func (e *Env) canonPredicates(leaves []*ir.Leaf) []*ir.Leaf {
-	kind := map[*types.Func]string{}
-	classify := func(fn *types.Func, en *facts.Enum) string {
-		if k, ok := kind[fn]; ok {
+	type key struct {
+		fn     *types.Func
+		consts bool
+	}
+	kind := map[key]string{}
+	// consts: only the declared constants of the type are looked at (the argument is the result of a parser of
+	// the library, which yields a declared constant or the zero constant: parse / arm-parser)
+	classify := func(fn *types.Func, en *facts.Enum, consts bool) string {
+		if k, ok := kind[key{fn, consts}]; ok {
 			return k
 		}
 		ne, eq := true, true
-		dom := e.F.Domain(en.Named)
-		for _, v := range dom {
+		n := 0
+		for _, v := range e.F.Domain(en.Named) {
+			if consts && (v.Kind != facts.VConst || v.Obj == nil) {
+				continue
+			}
+			n++
 			r, ok := boolOf(e.F.Eval(fn, v))
 			if !ok {
 				ne, eq = false, false
@@ -687,14 +707,26 @@ func (e *Env) canonPredicates(leaves []*ir.Leaf) []*ir.Leaf {
 		}
 		k := ""
 		switch {
-		case len(dom) == 0:
+		case n == 0:
 		case ne:
 			k = "!="
 		case eq:
 			k = "=="
 		}
-		kind[fn] = k
+		kind[key{fn, consts}] = k
 		return k
+	}
+	isParserCall := func(t *ir.Term, T types.Type) bool {
+		pf, _ := t.Obj.(*types.Func)
+		if t.Op != ir.OCall || pf == nil || len(t.Args) != 1 || pf.Pkg() == nil || !load.IsLib(pf.Pkg().Path()) {
+			return false
+		}
+		sig := pf.Type().(*types.Signature)
+		if sig.Recv() != nil || sig.Params().Len() != 1 || sig.Results().Len() != 1 || !types.Identical(sig.Results().At(0).Type(), T) {
+			return false
+		}
+		bt, ok := sig.Params().At(0).Type().Underlying().(*types.Basic)
+		return ok && bt.Info()&types.IsString != 0
 	}
 	rep := func(t *ir.Term) *ir.Term {
 		fn, _ := t.Obj.(*types.Func)
@@ -712,8 +744,13 @@ func (e *Env) canonPredicates(leaves []*ir.Leaf) []*ir.Leaf {
 		if en == nil || en.Zero == nil {
 			return nil
 		}
-		if k := classify(fn, en); k != "" {
+		if k := classify(fn, en, false); k != "" {
 			return ir.Bin(k, ir.Const(en.Zero.Val(), sig.Recv().Type()), t.Args[0])
+		}
+		if isParserCall(t.Args[0], sig.Recv().Type()) {
+			if k := classify(fn, en, true); k != "" {
+				return ir.Bin(k, ir.Const(en.Zero.Val(), sig.Recv().Type()), t.Args[0])
+			}
 		}
 		return nil
 	}
